@@ -3,6 +3,7 @@
 -/
 import PyModeS.Proofs.Bits
 import PyModeS.Model.Commb
+import PyModeS.Proofs.Commb.Fields
 namespace PyModeS.C11
 
 /-- Generic unsigned row: status bit `sb`, field `d[a:b]`; result depends on those bits only. -/
@@ -48,5 +49,668 @@ theorem ufield_roundtrip (pre post : Bits) (w v : Nat) (hw : 0 < w) (hv : v < 2 
     rw [e, natToBits_length] at this
     exact this
   rw [h1, h2, bin2int_natToBits_of_lt hv]
+
+end PyModeS.C11
+
+/-! ## The Doc 9871 row table and the generic decoding (appended) -/
+namespace PyModeS.C11
+open PyModeS.Tot
+
+/-- MB bit `k`, numbered 1..56 as in ICAO Doc 9871 -/
+def mbBit (d : Bits) (k : Nat) : Bool := d.getD (k - 1) false
+
+/-- unsigned value of MB bits `msb..lsb` (1-based, inclusive, MSB first) -/
+def mbField (d : Bits) (msb lsb : Nat) : Nat := bin2int (slice (msb - 1) lsb d)
+
+/-- One row of a Doc 9871 register layout: status bit, optional sign bit, value bits `msb..lsb`
+    (1-based MB bit numbers, inclusive), LSB weight, offset, and whether a negative angle is
+    reported in `[0, 360)`. -/
+structure Row where
+  status : Nat
+  sign : Option Nat
+  msb : Nat
+  lsb : Nat
+  scale : Rat
+  offset : Rat
+  wrap : Bool
+
+/-- number of value bits (excluding the sign bit) -/
+def Row.width (r : Row) : Nat := r.lsb - r.msb + 1
+
+/-- Generic Doc 9871 decoding of a status-gated field of the 56-bit MB field `d`: `None` when the
+    status bit is clear; otherwise the (two's-complement, when there is a sign bit: `v − 2^n` if
+    the sign bit is set) field value × LSB + offset, with 360 added to a negative wrapped angle. -/
+def decodeRow (r : Row) (d : Bits) : Option Rat :=
+  if mbBit d r.status = false then none else
+    let raw : Int := (mbField d r.msb r.lsb : Int)
+    let v : Int := match r.sign with
+      | some s => if mbBit d s then raw - ((2 ^ r.width : Nat) : Int) else raw
+      | none => raw
+    let x : Rat := (v : Rat) * r.scale + r.offset
+    some (if r.wrap = true ∧ x < 0 then x + 360 else x)
+
+/-- BDS 4,0 MCP/FCU selected altitude (ft) -/
+def rSelalt40mcp : Row := ⟨1, none, 2, 13, 16, 0, false⟩
+/-- BDS 4,0 FMS selected altitude (ft) -/
+def rSelalt40fms : Row := ⟨14, none, 15, 26, 16, 0, false⟩
+/-- BDS 4,0 barometric pressure setting (mb), 0.1 mb + 800 -/
+def rP40baro : Row := ⟨27, none, 28, 39, ((1 : Rat) / 10), 800, false⟩
+/-- BDS 4,4 average static pressure (hPa) -/
+def rP44 : Row := ⟨35, none, 36, 46, 1, 0, false⟩
+/-- BDS 4,4 humidity (%) -/
+def rHum44 : Row := ⟨50, none, 51, 56, ((100 : Rat) / 64), 0, false⟩
+/-- BDS 4,4 turbulence -/
+def rTurb44 : Row := ⟨47, none, 48, 49, 1, 0, false⟩
+/-- BDS 4,5 turbulence -/
+def rTurb45 : Row := ⟨1, none, 2, 3, 1, 0, false⟩
+/-- BDS 4,5 wind shear -/
+def rWs45 : Row := ⟨4, none, 5, 6, 1, 0, false⟩
+/-- BDS 4,5 microburst -/
+def rMb45 : Row := ⟨7, none, 8, 9, 1, 0, false⟩
+/-- BDS 4,5 icing -/
+def rIc45 : Row := ⟨10, none, 11, 12, 1, 0, false⟩
+/-- BDS 4,5 wake vortex -/
+def rWv45 : Row := ⟨13, none, 14, 15, 1, 0, false⟩
+/-- BDS 4,5 average static pressure (hPa) -/
+def rP45 : Row := ⟨27, none, 28, 38, 1, 0, false⟩
+/-- BDS 4,5 radio height (ft) -/
+def rRh45 : Row := ⟨39, none, 40, 51, 16, 0, false⟩
+/-- BDS 5,0 roll angle (deg) -/
+def rRoll50 : Row := ⟨1, (some 2), 3, 11, ((45 : Rat) / 256), 0, false⟩
+/-- BDS 5,0 true track angle (deg) -/
+def rTrk50 : Row := ⟨12, (some 13), 14, 23, ((90 : Rat) / 512), 0, true⟩
+/-- BDS 5,0 ground speed (kt) -/
+def rGs50 : Row := ⟨24, none, 25, 34, 2, 0, false⟩
+/-- BDS 5,0 track angle rate (deg/s) -/
+def rRtrk50 : Row := ⟨35, (some 36), 37, 45, ((8 : Rat) / 256), 0, false⟩
+/-- BDS 5,0 true airspeed (kt) -/
+def rTas50 : Row := ⟨46, none, 47, 56, 2, 0, false⟩
+/-- BDS 5,3 magnetic heading (deg) -/
+def rHdg53 : Row := ⟨1, (some 2), 3, 12, ((90 : Rat) / 512), 0, true⟩
+/-- BDS 5,3 indicated airspeed (kt) -/
+def rIas53 : Row := ⟨13, none, 14, 23, 1, 0, false⟩
+/-- BDS 5,3 Mach number, 0.008 -/
+def rMach53 : Row := ⟨24, none, 25, 33, ((8 : Rat) / 1000), 0, false⟩
+/-- BDS 5,3 true airspeed (kt), 0.5 -/
+def rTas53 : Row := ⟨34, none, 35, 46, ((1 : Rat) / 2), 0, false⟩
+/-- BDS 5,3 vertical rate (ft/min) -/
+def rVr53 : Row := ⟨47, (some 48), 49, 56, 64, 0, false⟩
+/-- BDS 6,0 magnetic heading (deg) -/
+def rHdg60 : Row := ⟨1, (some 2), 3, 12, ((90 : Rat) / 512), 0, true⟩
+/-- BDS 6,0 indicated airspeed (kt) -/
+def rIas60 : Row := ⟨13, none, 14, 23, 1, 0, false⟩
+/-- BDS 6,0 Mach number, 2.048/512 -/
+def rMach60 : Row := ⟨24, none, 25, 34, ((2048 : Rat) / 1000 / 512), 0, false⟩
+/-- BDS 6,0 barometric altitude rate (ft/min) -/
+def rVr60baro : Row := ⟨35, (some 36), 37, 45, 32, 0, false⟩
+/-- BDS 6,0 inertial vertical velocity (ft/min) -/
+def rVr60ins : Row := ⟨46, (some 47), 48, 56, 32, 0, false⟩
+
+/-- the 28 status-gated Comm-B field decoders and their Doc 9871 rows -/
+def rows : List (String × Row) := [
+  ("selalt40mcp", rSelalt40mcp),
+  ("selalt40fms", rSelalt40fms),
+  ("p40baro", rP40baro),
+  ("p44", rP44),
+  ("hum44", rHum44),
+  ("turb44", rTurb44),
+  ("turb45", rTurb45),
+  ("ws45", rWs45),
+  ("mb45", rMb45),
+  ("ic45", rIc45),
+  ("wv45", rWv45),
+  ("p45", rP45),
+  ("rh45", rRh45),
+  ("roll50", rRoll50),
+  ("trk50", rTrk50),
+  ("gs50", rGs50),
+  ("rtrk50", rRtrk50),
+  ("tas50", rTas50),
+  ("hdg53", rHdg53),
+  ("ias53", rIas53),
+  ("mach53", rMach53),
+  ("tas53", rTas53),
+  ("vr53", rVr53),
+  ("hdg60", rHdg60),
+  ("ias60", rIas60),
+  ("mach60", rMach60),
+  ("vr60baro", rVr60baro),
+  ("vr60ins", rVr60ins)]
+
+/-- the model decoder of each row name -/
+def decoderOf (name : String) (bits : Bits) : Res (Option Rat) :=
+  if name = "selalt40mcp" then selalt40mcp bits
+  else if name = "selalt40fms" then selalt40fms bits
+  else if name = "p40baro" then p40baro bits
+  else if name = "p44" then p44 bits
+  else if name = "hum44" then hum44 bits
+  else if name = "turb44" then turb44 bits
+  else if name = "turb45" then turb45 bits
+  else if name = "ws45" then ws45 bits
+  else if name = "mb45" then mb45 bits
+  else if name = "ic45" then ic45 bits
+  else if name = "wv45" then wv45 bits
+  else if name = "p45" then p45 bits
+  else if name = "rh45" then rh45 bits
+  else if name = "roll50" then roll50 bits
+  else if name = "trk50" then trk50 bits
+  else if name = "gs50" then gs50 bits
+  else if name = "rtrk50" then rtrk50 bits
+  else if name = "tas50" then tas50 bits
+  else if name = "hdg53" then hdg53 bits
+  else if name = "ias53" then ias53 bits
+  else if name = "mach53" then mach53 bits
+  else if name = "tas53" then tas53 bits
+  else if name = "vr53" then vr53 bits
+  else if name = "hdg60" then hdg60 bits
+  else if name = "ias60" then ias60 bits
+  else if name = "mach60" then mach60 bits
+  else if name = "vr60baro" then vr60baro bits
+  else if name = "vr60ins" then vr60ins bits
+  else .exc
+
+
+/-- unsigned rows: `ufield` on a 56-bit MB field is `decodeRow` -/
+theorem ufield_row (r : Row) (d : Bits) (hd : d.length = 56) (hs : r.sign = none) (hw : r.wrap = false)
+    (h1 : 1 ≤ r.status) (h2 : r.status ≤ 56) (h3 : 1 ≤ r.msb) (h4 : r.msb ≤ r.lsb) (h5 : r.lsb ≤ 56) :
+    ufield d (r.status - 1) (r.msb - 1) r.lsb r.scale r.offset = .val (decodeRow r d) := by
+  rw [ufield_val d hd _ _ _ _ _ (by omega) (by omega) h5]
+  unfold decodeRow mbBit mbField
+  simp only [hs, hw]
+  split <;> simp [Rat.intCast_natCast]
+
+/-- signed rows without wrap: `sfield` on a 56-bit MB field is `decodeRow` -/
+theorem sfield_row (r : Row) (d : Bits) (hd : d.length = 56) (s : Nat) (hs : r.sign = some s)
+    (hw : r.wrap = false) (ho : r.offset = 0)
+    (h1 : 1 ≤ r.status) (h2 : r.status ≤ 56) (h6 : 1 ≤ s) (h7 : s ≤ 56)
+    (h3 : 1 ≤ r.msb) (h4 : r.msb ≤ r.lsb) (h5 : r.lsb ≤ 56) :
+    sfield d (r.status - 1) (s - 1) (r.msb - 1) r.lsb r.scale = .val (decodeRow r d) := by
+  rw [sfield_val d hd _ _ _ _ _ (by omega) (by omega) (by omega) h5]
+  unfold decodeRow mbBit mbField Row.width
+  have e : r.lsb - (r.msb - 1) = r.lsb - r.msb + 1 := by omega
+  simp only [hs, hw, ho, e, Rat.add_zero]
+  split <;> simp
+
+/-- signed rows with wrap: `wrap360 ∘ sfield` is `decodeRow` -/
+theorem sfield_row_wrap (r : Row) (d : Bits) (hd : d.length = 56) (s : Nat) (hs : r.sign = some s)
+    (hw : r.wrap = true) (ho : r.offset = 0)
+    (h1 : 1 ≤ r.status) (h2 : r.status ≤ 56) (h6 : 1 ≤ s) (h7 : s ≤ 56)
+    (h3 : 1 ≤ r.msb) (h4 : r.msb ≤ r.lsb) (h5 : r.lsb ≤ 56) :
+    (do pure (wrap360 (← sfield d (r.status - 1) (s - 1) (r.msb - 1) r.lsb r.scale)) : Res (Option Rat)) =
+      .val (decodeRow r d) := by
+  rw [sfield_val d hd _ _ _ _ _ (by omega) (by omega) (by omega) h5]
+  unfold decodeRow mbBit mbField Row.width wrap360
+  have e : r.lsb - (r.msb - 1) = r.lsb - r.msb + 1 := by omega
+  simp only [hs, hw, ho, e, Rat.add_zero, Res.bind_val, Res.pure_eq]
+  split
+  · simp
+  · simp only [Option.map_some, true_and, Rat.add_comm 360]
+
+theorem selalt40mcp_row (bits : Bits) (h : bits.length = 112) :
+    selalt40mcp bits = .val (decodeRow rSelalt40mcp (slice 32 88 bits)) := by
+  unfold selalt40mcp
+  rw [dataR_112 bits h]
+  simp only [Res.bind_val]
+  exact ufield_row rSelalt40mcp _ (slice_32_88_length h) rfl rfl (by decide) (by decide) (by decide) (by decide) (by decide)
+
+theorem selalt40fms_row (bits : Bits) (h : bits.length = 112) :
+    selalt40fms bits = .val (decodeRow rSelalt40fms (slice 32 88 bits)) := by
+  unfold selalt40fms
+  rw [dataR_112 bits h]
+  simp only [Res.bind_val]
+  exact ufield_row rSelalt40fms _ (slice_32_88_length h) rfl rfl (by decide) (by decide) (by decide) (by decide) (by decide)
+
+theorem p40baro_row (bits : Bits) (h : bits.length = 112) :
+    p40baro bits = .val (decodeRow rP40baro (slice 32 88 bits)) := by
+  unfold p40baro
+  rw [dataR_112 bits h]
+  simp only [Res.bind_val]
+  exact ufield_row rP40baro _ (slice_32_88_length h) rfl rfl (by decide) (by decide) (by decide) (by decide) (by decide)
+
+theorem p44_row (bits : Bits) (h : bits.length = 112) :
+    p44 bits = .val (decodeRow rP44 (slice 32 88 bits)) := by
+  unfold p44
+  rw [dataR_112 bits h]
+  simp only [Res.bind_val]
+  exact ufield_row rP44 _ (slice_32_88_length h) rfl rfl (by decide) (by decide) (by decide) (by decide) (by decide)
+
+theorem hum44_row (bits : Bits) (h : bits.length = 112) :
+    hum44 bits = .val (decodeRow rHum44 (slice 32 88 bits)) := by
+  unfold hum44
+  rw [dataR_112 bits h]
+  simp only [Res.bind_val]
+  exact ufield_row rHum44 _ (slice_32_88_length h) rfl rfl (by decide) (by decide) (by decide) (by decide) (by decide)
+
+theorem turb44_row (bits : Bits) (h : bits.length = 112) :
+    turb44 bits = .val (decodeRow rTurb44 (slice 32 88 bits)) := by
+  unfold turb44
+  rw [dataR_112 bits h]
+  simp only [Res.bind_val]
+  exact ufield_row rTurb44 _ (slice_32_88_length h) rfl rfl (by decide) (by decide) (by decide) (by decide) (by decide)
+
+theorem turb45_row (bits : Bits) (h : bits.length = 112) :
+    turb45 bits = .val (decodeRow rTurb45 (slice 32 88 bits)) := by
+  unfold turb45
+  rw [dataR_112 bits h]
+  simp only [Res.bind_val]
+  exact ufield_row rTurb45 _ (slice_32_88_length h) rfl rfl (by decide) (by decide) (by decide) (by decide) (by decide)
+
+theorem ws45_row (bits : Bits) (h : bits.length = 112) :
+    ws45 bits = .val (decodeRow rWs45 (slice 32 88 bits)) := by
+  unfold ws45
+  rw [dataR_112 bits h]
+  simp only [Res.bind_val]
+  exact ufield_row rWs45 _ (slice_32_88_length h) rfl rfl (by decide) (by decide) (by decide) (by decide) (by decide)
+
+theorem mb45_row (bits : Bits) (h : bits.length = 112) :
+    mb45 bits = .val (decodeRow rMb45 (slice 32 88 bits)) := by
+  unfold mb45
+  rw [dataR_112 bits h]
+  simp only [Res.bind_val]
+  exact ufield_row rMb45 _ (slice_32_88_length h) rfl rfl (by decide) (by decide) (by decide) (by decide) (by decide)
+
+theorem ic45_row (bits : Bits) (h : bits.length = 112) :
+    ic45 bits = .val (decodeRow rIc45 (slice 32 88 bits)) := by
+  unfold ic45
+  rw [dataR_112 bits h]
+  simp only [Res.bind_val]
+  exact ufield_row rIc45 _ (slice_32_88_length h) rfl rfl (by decide) (by decide) (by decide) (by decide) (by decide)
+
+theorem wv45_row (bits : Bits) (h : bits.length = 112) :
+    wv45 bits = .val (decodeRow rWv45 (slice 32 88 bits)) := by
+  unfold wv45
+  rw [dataR_112 bits h]
+  simp only [Res.bind_val]
+  exact ufield_row rWv45 _ (slice_32_88_length h) rfl rfl (by decide) (by decide) (by decide) (by decide) (by decide)
+
+theorem p45_row (bits : Bits) (h : bits.length = 112) :
+    p45 bits = .val (decodeRow rP45 (slice 32 88 bits)) := by
+  unfold p45
+  rw [dataR_112 bits h]
+  simp only [Res.bind_val]
+  exact ufield_row rP45 _ (slice_32_88_length h) rfl rfl (by decide) (by decide) (by decide) (by decide) (by decide)
+
+theorem rh45_row (bits : Bits) (h : bits.length = 112) :
+    rh45 bits = .val (decodeRow rRh45 (slice 32 88 bits)) := by
+  unfold rh45
+  rw [dataR_112 bits h]
+  simp only [Res.bind_val]
+  exact ufield_row rRh45 _ (slice_32_88_length h) rfl rfl (by decide) (by decide) (by decide) (by decide) (by decide)
+
+theorem roll50_row (bits : Bits) (h : bits.length = 112) :
+    roll50 bits = .val (decodeRow rRoll50 (slice 32 88 bits)) := by
+  unfold roll50
+  rw [dataR_112 bits h]
+  simp only [Res.bind_val]
+  exact sfield_row rRoll50 _ (slice_32_88_length h) 2 rfl rfl rfl (by decide) (by decide) (by decide) (by decide) (by decide) (by decide) (by decide)
+
+theorem trk50_row (bits : Bits) (h : bits.length = 112) :
+    trk50 bits = .val (decodeRow rTrk50 (slice 32 88 bits)) := by
+  unfold trk50
+  rw [dataR_112 bits h]
+  simp only [Res.bind_val]
+  exact sfield_row_wrap rTrk50 _ (slice_32_88_length h) 13 rfl rfl rfl (by decide) (by decide) (by decide) (by decide) (by decide) (by decide) (by decide)
+
+theorem gs50_row (bits : Bits) (h : bits.length = 112) :
+    gs50 bits = .val (decodeRow rGs50 (slice 32 88 bits)) := by
+  unfold gs50
+  rw [dataR_112 bits h]
+  simp only [Res.bind_val]
+  exact ufield_row rGs50 _ (slice_32_88_length h) rfl rfl (by decide) (by decide) (by decide) (by decide) (by decide)
+
+theorem rtrk50_row (bits : Bits) (h : bits.length = 112) :
+    rtrk50 bits = .val (decodeRow rRtrk50 (slice 32 88 bits)) := by
+  unfold rtrk50
+  rw [dataR_112 bits h]
+  simp only [Res.bind_val]
+  exact sfield_row rRtrk50 _ (slice_32_88_length h) 36 rfl rfl rfl (by decide) (by decide) (by decide) (by decide) (by decide) (by decide) (by decide)
+
+theorem tas50_row (bits : Bits) (h : bits.length = 112) :
+    tas50 bits = .val (decodeRow rTas50 (slice 32 88 bits)) := by
+  unfold tas50
+  rw [dataR_112 bits h]
+  simp only [Res.bind_val]
+  exact ufield_row rTas50 _ (slice_32_88_length h) rfl rfl (by decide) (by decide) (by decide) (by decide) (by decide)
+
+theorem hdg53_row (bits : Bits) (h : bits.length = 112) :
+    hdg53 bits = .val (decodeRow rHdg53 (slice 32 88 bits)) := by
+  unfold hdg53
+  rw [dataR_112 bits h]
+  simp only [Res.bind_val]
+  exact sfield_row_wrap rHdg53 _ (slice_32_88_length h) 2 rfl rfl rfl (by decide) (by decide) (by decide) (by decide) (by decide) (by decide) (by decide)
+
+theorem ias53_row (bits : Bits) (h : bits.length = 112) :
+    ias53 bits = .val (decodeRow rIas53 (slice 32 88 bits)) := by
+  unfold ias53
+  rw [dataR_112 bits h]
+  simp only [Res.bind_val]
+  exact ufield_row rIas53 _ (slice_32_88_length h) rfl rfl (by decide) (by decide) (by decide) (by decide) (by decide)
+
+theorem mach53_row (bits : Bits) (h : bits.length = 112) :
+    mach53 bits = .val (decodeRow rMach53 (slice 32 88 bits)) := by
+  unfold mach53
+  rw [dataR_112 bits h]
+  simp only [Res.bind_val]
+  exact ufield_row rMach53 _ (slice_32_88_length h) rfl rfl (by decide) (by decide) (by decide) (by decide) (by decide)
+
+theorem tas53_row (bits : Bits) (h : bits.length = 112) :
+    tas53 bits = .val (decodeRow rTas53 (slice 32 88 bits)) := by
+  unfold tas53
+  rw [dataR_112 bits h]
+  simp only [Res.bind_val]
+  exact ufield_row rTas53 _ (slice_32_88_length h) rfl rfl (by decide) (by decide) (by decide) (by decide) (by decide)
+
+theorem vr53_row (bits : Bits) (h : bits.length = 112) :
+    vr53 bits = .val (decodeRow rVr53 (slice 32 88 bits)) := by
+  unfold vr53
+  rw [dataR_112 bits h]
+  simp only [Res.bind_val]
+  exact sfield_row rVr53 _ (slice_32_88_length h) 48 rfl rfl rfl (by decide) (by decide) (by decide) (by decide) (by decide) (by decide) (by decide)
+
+theorem hdg60_row (bits : Bits) (h : bits.length = 112) :
+    hdg60 bits = .val (decodeRow rHdg60 (slice 32 88 bits)) := by
+  unfold hdg60
+  rw [dataR_112 bits h]
+  simp only [Res.bind_val]
+  exact sfield_row_wrap rHdg60 _ (slice_32_88_length h) 2 rfl rfl rfl (by decide) (by decide) (by decide) (by decide) (by decide) (by decide) (by decide)
+
+theorem ias60_row (bits : Bits) (h : bits.length = 112) :
+    ias60 bits = .val (decodeRow rIas60 (slice 32 88 bits)) := by
+  unfold ias60
+  rw [dataR_112 bits h]
+  simp only [Res.bind_val]
+  exact ufield_row rIas60 _ (slice_32_88_length h) rfl rfl (by decide) (by decide) (by decide) (by decide) (by decide)
+
+theorem mach60_row (bits : Bits) (h : bits.length = 112) :
+    mach60 bits = .val (decodeRow rMach60 (slice 32 88 bits)) := by
+  unfold mach60
+  rw [dataR_112 bits h]
+  simp only [Res.bind_val]
+  exact ufield_row rMach60 _ (slice_32_88_length h) rfl rfl (by decide) (by decide) (by decide) (by decide) (by decide)
+
+theorem vr60baro_row (bits : Bits) (h : bits.length = 112) :
+    vr60baro bits = .val (decodeRow rVr60baro (slice 32 88 bits)) := by
+  unfold vr60baro
+  rw [dataR_112 bits h]
+  simp only [Res.bind_val]
+  exact sfield_row rVr60baro _ (slice_32_88_length h) 36 rfl rfl rfl (by decide) (by decide) (by decide) (by decide) (by decide) (by decide) (by decide)
+
+theorem vr60ins_row (bits : Bits) (h : bits.length = 112) :
+    vr60ins bits = .val (decodeRow rVr60ins (slice 32 88 bits)) := by
+  unfold vr60ins
+  rw [dataR_112 bits h]
+  simp only [Res.bind_val]
+  exact sfield_row rVr60ins _ (slice_32_88_length h) 47 rfl rfl rfl (by decide) (by decide) (by decide) (by decide) (by decide) (by decide) (by decide)
+
+theorem rows_length : rows.length = 28 := rfl
+
+/-- **C11, table form.** On every 112-bit frame, each of the 28 status-gated Comm-B decoders returns
+    exactly the generic Doc 9871 decoding of its row applied to the MB field (frame bits 33–88):
+    the result is a value (never an exception), `None` exactly when the status bit is clear, and
+    a function of the row's status/sign/value bits only. -/
+theorem rows_decode : ∀ p ∈ rows, ∀ bits : Bits, bits.length = 112 →
+    decoderOf p.1 bits = .val (decodeRow p.2 (slice 32 88 bits)) := by
+  intro p hp bits h
+  simp only [rows, List.mem_cons, List.not_mem_nil, or_false] at hp
+  rcases hp with rfl | rfl | rfl | rfl | rfl | rfl | rfl | rfl | rfl | rfl | rfl | rfl | rfl | rfl |
+    rfl | rfl | rfl | rfl | rfl | rfl | rfl | rfl | rfl | rfl | rfl | rfl | rfl | rfl
+  all_goals simp only [decoderOf, String.reduceEq, if_true, if_false]
+  · exact selalt40mcp_row bits h
+  · exact selalt40fms_row bits h
+  · exact p40baro_row bits h
+  · exact p44_row bits h
+  · exact hum44_row bits h
+  · exact turb44_row bits h
+  · exact turb45_row bits h
+  · exact ws45_row bits h
+  · exact mb45_row bits h
+  · exact ic45_row bits h
+  · exact wv45_row bits h
+  · exact p45_row bits h
+  · exact rh45_row bits h
+  · exact roll50_row bits h
+  · exact trk50_row bits h
+  · exact gs50_row bits h
+  · exact rtrk50_row bits h
+  · exact tas50_row bits h
+  · exact hdg53_row bits h
+  · exact ias53_row bits h
+  · exact mach53_row bits h
+  · exact tas53_row bits h
+  · exact vr53_row bits h
+  · exact hdg60_row bits h
+  · exact ias60_row bits h
+  · exact mach60_row bits h
+  · exact vr60baro_row bits h
+  · exact vr60ins_row bits h
+
+/-- the theorem is not vacuous: a concrete BDS 5,0 frame (status set, track field 0x155 with the sign
+    bit set) -/
+example : trk50 (natToBits 32 0 ++ natToBits 11 0 ++ [true, true] ++ natToBits 10 0x155 ++ natToBits 57 0)
+    = .val (decodeRow rTrk50 (slice 32 88
+        (natToBits 32 0 ++ natToBits 11 0 ++ [true, true] ++ natToBits 10 0x155 ++ natToBits 57 0))) :=
+  trk50_row _ (by simp)
+
+/-- **Independence.** `decodeRow` reads only the row's own status, sign and value bits: two MB fields
+    that agree on those give the same result, whatever all the other bits are. -/
+theorem decodeRow_congr (r : Row) (d d' : Bits) (hst : mbBit d r.status = mbBit d' r.status)
+    (hsg : ∀ s, r.sign = some s → mbBit d s = mbBit d' s)
+    (hv : slice (r.msb - 1) r.lsb d = slice (r.msb - 1) r.lsb d') : decodeRow r d = decodeRow r d' := by
+  unfold decodeRow mbField
+  rw [hst, hv]
+  cases hs : r.sign with
+  | none => rfl
+  | some s => simp only []; rw [hsg s hs]
+
+/-- frame-level form: a decoder's result is unchanged by any change of frame bits outside its row -/
+theorem rows_independent : ∀ p ∈ rows, ∀ b b' : Bits, b.length = 112 → b'.length = 112 →
+    mbBit (slice 32 88 b) p.2.status = mbBit (slice 32 88 b') p.2.status →
+    (∀ s, p.2.sign = some s → mbBit (slice 32 88 b) s = mbBit (slice 32 88 b') s) →
+    slice (p.2.msb - 1) p.2.lsb (slice 32 88 b) = slice (p.2.msb - 1) p.2.lsb (slice 32 88 b') →
+    decoderOf p.1 b = decoderOf p.1 b' := by
+  intro p hp b b' h h' h1 h2 h3
+  rw [rows_decode p hp b h, rows_decode p hp b' h', decodeRow_congr p.2 _ _ h1 h2 h3]
+
+/-! ### the LSB weights written as decimals in Doc 9871 -/
+example : rP40baro.scale = 1 / 10 ∧ rMach53.scale = 1 / 125 ∧ rMach60.scale = 1 / 250 ∧ rTas53.scale = 1 / 2 ∧
+    rHum44.scale = 25 / 16 ∧ rRoll50.scale = 45 / 256 ∧ rTrk50.scale = 45 / 256 ∧ rRtrk50.scale = 1 / 32 := by
+  decide +kernel
+
+/-! ## Encoder round trip -/
+
+/-- Encoder: write the `width`-bit value `v`, the sign bit `sg` (when the row has one) and the status
+    bit `st` into the MB field `d`; every other bit of `d` is left as it is. -/
+def encodeRow (r : Row) (d : Bits) (st sg : Bool) (v : Nat) : Bits :=
+  let d1 := setSlice d (r.msb - 1) (natToBits r.width v)
+  let d2 := match r.sign with
+    | some s => setSlice d1 (s - 1) [sg]
+    | none => d1
+  setSlice d2 (r.status - 1) [st]
+
+/-- well-formedness of a row: `1 ≤ status < msb ≤ lsb ≤ 56`, and the sign bit (when present) is the
+    bit just before `msb` and after the status bit -/
+def Row.wf (r : Row) : Bool :=
+  decide (1 ≤ r.status ∧ r.status < r.msb ∧ r.msb ≤ r.lsb ∧ r.lsb ≤ 56) &&
+    (match r.sign with
+     | some s => decide (s + 1 = r.msb ∧ r.status < s)
+     | none => true)
+
+/-- the engineering value encoded by sign `sg` and magnitude bits `v` -/
+def rowValue (r : Row) (sg : Bool) (v : Nat) : Rat :=
+  let n : Int := if r.sign.isSome = true ∧ sg = true then (v : Int) - ((2 ^ r.width : Nat) : Int) else (v : Int)
+  let x : Rat := (n : Rat) * r.scale + r.offset
+  if r.wrap = true ∧ x < 0 then x + 360 else x
+
+/-- every row of the table is well-formed -/
+example : rows.all (fun p => p.2.wf) = true := by decide
+
+theorem mbBit_setSlice_single (d : Bits) (k : Nat) (b : Bool) (hk : 1 ≤ k) (hk' : k ≤ d.length) (j : Nat) :
+    mbBit (setSlice d (k - 1) [b]) j = if j - 1 = k - 1 then b else mbBit d j := by
+  unfold mbBit
+  rw [getD_setSlice d (k - 1) [b] (by simp; omega)]
+  simp only [List.length_singleton]
+  by_cases hj : j - 1 = k - 1
+  · rw [if_pos ⟨by omega, by omega⟩, if_pos hj, hj]; simp
+  · rw [if_neg (by omega), if_neg hj]
+
+/-- **Round trip.** For any 56-bit MB field `d` (all other bits arbitrary), writing status `st`, sign
+    `sg` and a value `v < 2^width` into a well-formed row and decoding gives `None` when the status
+    is clear and otherwise exactly the engineering value. -/
+theorem decode_encode (r : Row) (hwf : r.wf = true) (d : Bits) (hd : d.length = 56) (st sg : Bool) (v : Nat)
+    (hv : v < 2 ^ r.width) :
+    decodeRow r (encodeRow r d st sg v) = if st = false then none else some (rowValue r sg v) := by
+  simp only [Row.wf, Bool.and_eq_true, decide_eq_true_eq] at hwf
+  obtain ⟨⟨h1, h2, h3, h4⟩, hsgn⟩ := hwf
+  have hwid : r.msb - 1 + (natToBits r.width v).length = r.lsb := by
+    simp [Row.width]; omega
+  have l1 : (setSlice d (r.msb - 1) (natToBits r.width v)).length = 56 := by
+    rw [setSlice_length _ _ _ (by omega)]; exact hd
+  have f1 : slice (r.msb - 1) r.lsb (setSlice d (r.msb - 1) (natToBits r.width v)) = natToBits r.width v := by
+    have := slice_setSlice_self d (r.msb - 1) (natToBits r.width v) (by omega)
+    rw [hwid] at this; exact this
+  cases hs : r.sign with
+  | none =>
+    unfold decodeRow encodeRow mbField rowValue
+    simp only [hs]
+    rw [mbBit_setSlice_single _ _ _ h1 (by omega)]
+    rw [slice_setSlice_disjoint _ _ _ (by simp; omega) _ _ (by right; simp; omega), f1,
+      bin2int_natToBits_of_lt hv]
+    cases st <;> simp
+  | some s =>
+    rw [hs] at hsgn
+    simp only [decide_eq_true_eq] at hsgn
+    obtain ⟨hs1, hs2⟩ := hsgn
+    have l2 : (setSlice (setSlice d (r.msb - 1) (natToBits r.width v)) (s - 1) [sg]).length = 56 := by
+      rw [setSlice_length _ _ _ (by simp; omega)]; exact l1
+    unfold decodeRow encodeRow mbField rowValue
+    simp only [hs]
+    simp only [mbBit_setSlice_single _ _ _ h1
+        (show r.status ≤ (setSlice (setSlice d (r.msb - 1) (natToBits r.width v)) (s - 1) [sg]).length by omega),
+      mbBit_setSlice_single _ _ _ (show 1 ≤ s by omega)
+        (show s ≤ (setSlice d (r.msb - 1) (natToBits r.width v)).length by omega)]
+    rw [slice_setSlice_disjoint _ _ _ (by simp; omega) _ _ (by right; simp; omega),
+      slice_setSlice_disjoint _ _ _ (by simp; omega) _ _ (by right; simp; omega), f1,
+      bin2int_natToBits_of_lt hv]
+    have ne : ¬(s - 1 = r.status - 1) := by omega
+    cases st <;> cases sg <;> simp [ne]
+
+/-- non-vacuity: −1 × 90/512 wraps to 360 − 90/512 in the BDS 6,0 heading row -/
+example : decodeRow rHdg60 (encodeRow rHdg60 (natToBits 56 0x123456789ABCDE) true true 1023) =
+    some (360 - 90 / 512) := by
+  rw [decode_encode rHdg60 (by decide) _ (by simp) _ _ _ (by decide)]
+  decide +kernel
+
+/-! ## The unconditional decoders -/
+
+/-- BDS 4,4 static air temperature: sign bit 24, value bits 25–34 (two's complement), reported
+    unconditionally at both candidate resolutions 0.25 °C and 0.125 °C. -/
+theorem temp44_spec (bits : Bits) (h : bits.length = 112) :
+    temp44 bits = .val (
+      let d := slice 32 88 bits
+      let v : Int := if mbBit d 24 then (mbField d 25 34 : Int) - 1024 else (mbField d 25 34 : Int)
+      ((v : Rat) * (1 / 4), (v : Rat) * (1 / 8))) := by
+  unfold temp44
+  rw [dataR_112 bits h]
+  have hd := slice_32_88_length h
+  generalize slice 32 88 bits = d at hd
+  have e1 : idxR d 23 = .val (mbBit d 24) := idxR_val hd 23 (by omega)
+  have e2 : bin2intR (slice 24 34 d) = .val (mbField d 25 34) := bin2intR_slice_val hd 24 34 (by omega) (by omega)
+  simp only [Res.bind_val, e1, e2, Res.pure_eq, Rat.div_def, Rat.one_mul]
+
+/-- BDS 4,5 static air temperature: sign bit 17, value bits 18–26, × 0.25 °C, unconditional. -/
+theorem temp45_spec (bits : Bits) (h : bits.length = 112) :
+    temp45 bits = .val (
+      let d := slice 32 88 bits
+      let v : Int := if mbBit d 17 then (mbField d 18 26 : Int) - 512 else (mbField d 18 26 : Int)
+      (v : Rat) * (1 / 4)) := by
+  unfold temp45
+  rw [dataR_112 bits h]
+  have hd := slice_32_88_length h
+  generalize slice 32 88 bits = d at hd
+  have e1 : idxR d 16 = .val (mbBit d 17) := idxR_val hd 16 (by omega)
+  have e2 : bin2intR (slice 17 26 d) = .val (mbField d 18 26) := bin2intR_slice_val hd 17 26 (by omega) (by omega)
+  simp only [Res.bind_val, e1, e2, Res.pure_eq, Rat.div_def, Rat.one_mul]
+
+/-- BDS 4,4 wind: status bit 5; speed bits 6–14 (kt); direction bits 15–23 × 180/256 deg;
+    `none` (Python `(None, None)`) when the status bit is clear. -/
+theorem wind44_spec (bits : Bits) (h : bits.length = 112) :
+    wind44 bits = .val (
+      let d := slice 32 88 bits
+      if mbBit d 5 = false then none
+      else some (mbField d 6 14, (mbField d 15 23 : Rat) * ((180 : Rat) / 256))) := by
+  unfold wind44
+  rw [dataR_112 bits h]
+  have hd := slice_32_88_length h
+  generalize slice 32 88 bits = d at hd
+  have e1 : idxR d 4 = .val (mbBit d 5) := idxR_val hd 4 (by omega)
+  have e2 : bin2intR (slice 5 14 d) = .val (mbField d 6 14) := bin2intR_slice_val hd 5 14 (by omega) (by omega)
+  have e3 : bin2intR (slice 14 23 d) = .val (mbField d 15 23) := bin2intR_slice_val hd 14 23 (by omega) (by omega)
+  simp only [Res.bind_val, e1, e2, e3, Res.pure_eq, Rat.div_def, Rat.mul_assoc]
+  split <;> rfl
+
+/-- BDS 1,0 overlay command capability: MB bit 15 -/
+theorem ovc10_spec (bits : Bits) (h : bits.length = 112) :
+    ovc10 bits = .val (b2n (mbBit (slice 32 88 bits) 15)) := by
+  unfold ovc10
+  rw [dataR_112 bits h]
+  have e1 : idxR (slice 32 88 bits) 14 = .val (mbBit (slice 32 88 bits) 15) :=
+    idxR_val (slice_32_88_length h) 14 (by omega)
+  simp only [Res.bind_val, e1, Res.pure_eq]
+
+/-- the regenerated capability table is the Doc 9871 list of BDS 1,7 -/
+theorem cap17All_spec : Tables.cap17All = ["05", "06", "07", "08", "09", "0A", "20", "21", "40", "41", "42", "43",
+    "44", "45", "48", "50", "51", "52", "53", "54", "55", "56", "5F", "60"] := by decide
+
+/-- BDS 1,7: the labels of the set bits among MB bits 1–24, in increasing bit order (for any
+    regenerated table with at least 24 entries — no entry can be missing, so nothing raises) -/
+theorem cap17_spec (bits : Bits) (h : bits.length = 112) (ht : 24 ≤ Tables.cap17All.length) :
+    cap17 bits = .val (((List.range 24).filter (fun i => mbBit (slice 32 88 bits) (i + 1))).map
+      (fun i => "BDS" ++ Tables.cap17All.getD i "")) := by
+  unfold cap17
+  rw [dataR_112 bits h]
+  have hd := slice_32_88_length h
+  simp only [Res.bind_val]
+  generalize slice 32 88 bits = d at hd
+  have hl : (List.take 24 d).length = 24 := by simp; omega
+  rw [hl]
+  have hf : (List.range 24).filter (fun i => (List.take 24 d).getD i false) =
+      (List.range 24).filter (fun i => mbBit d (i + 1)) := by
+    apply List.filter_congr
+    intro i hi
+    have hi : i < 24 := by simpa using hi
+    simp [mbBit, List.getD_eq_getElem?_getD, hi]
+  rw [hf]
+  apply mapM_val
+  intro i hi
+  have hi : i < 24 := by
+    have := (List.mem_filter.mp hi).1
+    simpa using this
+  rw [idxR_eq (by omega)]
+  simp only [Res.bind_val, Res.pure_eq, List.getD_eq_getElem?_getD]
+  rw [List.getElem?_eq_getElem (by omega)]
+  rfl
+
+example : 24 ≤ Tables.cap17All.length := by decide
+
+/-! ## Concrete frames (the pyModeS unit-test vectors) evaluated on the model -/
+
+/-- the pyModeS test vectors, decoded through the row table -/
+example : let f := natToBits 112 0xA000139381951536E024D4CCF6B5
+    [roll50 f, trk50 f, gs50 f, rtrk50 f, tas50 f] =
+      [.val (some (135 / 64)), .val (some (14625 / 128)), .val (some 438), .val (some (1 / 8)), .val (some 424)] := by
+  decide +kernel
+example : let f := natToBits 112 0xA00004128F39F91A7E27C46ADC21
+    [hdg60 f, ias60 f, mach60 f, vr60baro f, vr60ins f] =
+      [.val (some (10935 / 256)), .val (some 252), .val (some (21 / 50)), .val (some (-1920)), .val (some (-1920))] := by
+  decide +kernel
+example : let f := natToBits 112 0xA000029C85E42F313000007047D3
+    [selalt40mcp f, selalt40fms f, p40baro f] = [.val (some 3008), .val (some 3008), .val (some 1020)] := by
+  decide +kernel
+example : let f := natToBits 112 0xA0001692185BD5CF400000DFC696
+    wind44 f = .val (some (22, 11025 / 32)) ∧ temp44 f = .val (-195 / 4, -195 / 8) ∧ p44 f = .val none := by
+  decide +kernel
+example : cap17 (natToBits 112 0xA0000638FA81C10000000081A92F) =
+    .val ["BDS05", "BDS06", "BDS07", "BDS08", "BDS09", "BDS20", "BDS40", "BDS50", "BDS51", "BDS52", "BDS60"] := by
+  decide +kernel
 
 end PyModeS.C11
